@@ -7,7 +7,7 @@ patch=$(realpath "$1"); shift
 SV=/work/seedtest/verif
 SR=/work/seedtest/repo
 git -C /verif worktree list | grep -q "$SV" || git -C /verif worktree add -q --detach "$SV" HEAD
-git -C "$SV" checkout -q --detach "$(git -C /verif rev-parse HEAD)"
+git -C "$SV" reset -q --hard; git -C "$SV" checkout -q -f --detach "$(git -C /verif rev-parse HEAD)"
 rm -rf "$SR"; git -C /repo worktree prune; git -C /repo worktree add -q --detach "$SR" HEAD
 if ! git -C "$SR" apply "$patch"; then echo "PATCH DOES NOT APPLY"; exit 3; fi
 export VERIF_REPO="$SR"
